@@ -182,6 +182,26 @@ pub fn check_case(c: &ScriptCase, obs: &mut Obs) -> Verdict {
         if let Err((_, m)) = carried_exact(&ops, 0, 0) {
             return Verdict::Fail(format!("{}: script {:?} -> ops {:?}: {}", name, c.script, ops, m));
         }
+        // one Replace adapter used for two scripts in a row (segment-by-segment use): every script is
+        // completed by its finish, so the second output is what a fresh adapter gives
+        let twice = guard(|| {
+            let mut h = Replace::new(Capture::new());
+            drive(&mut h, &c.script).unwrap();
+            h.finish().unwrap();
+            drive(&mut h, &c.script).unwrap();
+            h.finish().unwrap();
+            h.into_inner().into_ops()
+        });
+        match twice {
+            Ok(t) => {
+                let mut want = ops.clone();
+                want.extend(ops.iter().cloned());
+                if t != want {
+                    return Verdict::Fail(format!("{}: the script {:?} fed twice through ONE adapter (finish after each) gives {:?}, a fresh adapter gives {:?} each time", name, c.script, t, ops));
+                }
+            }
+            Err(p) => return Verdict::Fail(format!("{} reused for a second script: {}", name, p)),
+        }
     }
     let s = &c.script;
     let ins_before_del = s.windows(2).any(|w| matches!((w[0], w[1]), (SOp::Insert(..), SOp::Delete(..))));
@@ -301,7 +321,7 @@ impl Prop for C10 {
     type Case = ScriptCase;
     const ID: &'static str = "C10";
     fn rule() -> String {
-        "cases = (old, new, valid edit script as a history of equal/delete/insert hook calls with exact indices, adapter stack in {Compact, Replace, Compact<Replace>, Replace<Compact>}); 1 case in ~60 uses periodic sequences of 100-400 items so that single equal() calls span hundreds of items next to edits that repeat the run's items; scripts are built by an interpreter from a generated list of choices (so run splitting, insert-before-delete and non-minimal scripts all occur) and, in the enumeration stage, by a DFS over ALL valid scripts (with run splitting) of all pairs over {0,1} with lengths <= 3. Oracle: output is a valid script (walk + element equality), same number of deleted and of inserted items, nothing forwarded by Compact before finish, normal form through both adapters, exact carried indices through Replace alone, no panic. Non-trivial = script has >= 2 calls incl. a change and the adapter output differs from the input; distinct = distinct serialized case. The generator validates every script with the C01 stream validator before use (failure => exit 2).".into()
+        "cases = (old, new, valid edit script as a history of equal/delete/insert hook calls with exact indices, adapter stack in {Compact, Replace, Compact<Replace>, Replace<Compact>}); 1 case in ~60 uses periodic sequences of 100-400 items so that single equal() calls span hundreds of items next to edits that repeat the run's items; scripts are built by an interpreter from a generated list of choices (so run splitting, insert-before-delete and non-minimal scripts all occur) and, in the enumeration stage, by a DFS over ALL valid scripts (with run splitting) of all pairs over {0,1} with lengths <= 3. Oracle: output is a valid script (walk + element equality), same number of deleted and of inserted items, nothing forwarded by Compact before finish, normal form through both adapters, exact carried indices through Replace alone (also when ONE Replace adapter is fed the script twice, finish after each), no panic. Non-trivial = script has >= 2 calls incl. a change and the adapter output differs from the input; distinct = distinct serialized case. The generator validates every script with the C01 stream validator before use (failure => exit 2).".into()
     }
     fn assumptions() -> Vec<String> {
         vec!["scripts are driven through DiffOp::apply_to_hook + finish as in the library's own Compact::finish".into()]
